@@ -236,6 +236,11 @@ func checkC10(e *core.Env) {
 			if r.Intn(6) == 0 {
 				sc.ReqMD = nil
 			}
+			if sc.ReqMD != nil && r.Intn(3) == 0 {
+				// keys that begin like the protocol's own but are not reserved (a real transport delivers them)
+				k := pick(r, "grpc-trace-bin", "grpc-tags-bin", "grpc-previous-rpc-attempts")
+				sc.ReqMD[k] = []string{pick(r, "1", "\x00\x01\x02", "abc")}
+			}
 			run := inner.Svc.NewRun(sc, "inproc")
 			wantMD := metadata.MD{}
 			for k, v := range sc.ReqMD {
@@ -247,7 +252,12 @@ func checkC10(e *core.Env) {
 				sc.ReqMD = mdMerge(sc.ReqMD, metadata.MD{"authorization": {"caller-token"}})
 				wantMD["authorization"] = []string{"caller-token", "cred-token"}
 				wantMD["cred-only"] = []string{"c"}
-				sc.ExtraOpts = []grpc.CallOption{grpc.PerRPCCredentials(&testCreds{md: map[string]string{"authorization": "cred-token", "cred-only": "c"}})}
+				credMD := map[string]string{"authorization": "cred-token", "cred-only": "c"}
+				if r.Intn(2) == 0 {
+					// credentials are free to spell their keys with capitals (metadata keys are case-insensitive)
+					credMD = map[string]string{"Authorization": "cred-token", "Cred-Only": "c"}
+				}
+				sc.ExtraOpts = []grpc.CallOption{grpc.PerRPCCredentials(&testCreds{md: credMD})}
 			}
 			var keptCC context.Context
 			run.OnHandler = func(hctx context.Context, rr *Run, st grpc.ServerStream) {
